@@ -5,7 +5,7 @@
 //	bf    a= b=                                  bf128 product vs the model's carry-less multiply
 //	ext   xi= L= delta= x= src= tamper= n=      SoftSpoken extension on given base-OT seeds
 //	vsot  curve= xi= L= x= n=                    VSOT base OT (key derivation tied in the exponent)
-//	ecb   curve= xi= L= x= n=                    ecbbot base OT + POPF round trip
+//	ecb   curve= xi= L= x= n=                    ecbbot base OT (chosen key tied in the exponent) + POPF round trip
 //	rvb   curve= l= a= beta= tamper= n=          rvole/bbot multiplication
 //	rvs   curve= l= a= beta= tamper= n=          rvole/softspoken multiplication
 package main
@@ -991,8 +991,41 @@ func main() {
 	tdrv := time.Now()
 	var mout []string
 	if len(lines) > 0 {
+		// the driver is a pure function of its input lines: evaluate contiguous chunks in parallel processes
+		// (chunks balanced by input size), concatenate in order
+		nchunk := workers
+		total := 0
+		for _, l := range lines {
+			total += len(l) + 1
+		}
+		var chunks [][]string
+		acc, start := 0, 0
+		for i, l := range lines {
+			acc += len(l) + 1
+			if acc >= total/nchunk || i == len(lines)-1 {
+				chunks = append(chunks, lines[start:i+1])
+				start, acc = i+1, 0
+			}
+		}
+		couts := make([][]string, len(chunks))
+		cerrs := make([]error, len(chunks))
+		var dwg sync.WaitGroup
+		for k := range chunks {
+			dwg.Add(1)
+			go func(k int) {
+				defer dwg.Done()
+				couts[k], cerrs[k] = vh.Driver(a.Driver, chunks[k])
+			}(k)
+		}
+		dwg.Wait()
 		var err error
-		mout, err = vh.Driver(a.Driver, lines)
+		for k := range chunks {
+			if cerrs[k] != nil {
+				err = cerrs[k]
+				break
+			}
+			mout = append(mout, couts[k]...)
+		}
 		if err != nil {
 			res.Mismatch(vh.Mismatch{ID: "driver", Kind: "corr", Key: "model-driver-failed", Detail: err.Error(), Case: "(all)", What: "model driver"})
 			mout = nil
